@@ -864,3 +864,43 @@ def rule_text_admission(ctx: Ctx, rep: Report, rule: str, modules: tuple[str, ..
             rep.ob(rule, f"{q}:{norm(c)[:50]}", False, fi.where(c), f"`{norm(c)[:70]}` edits the inside of the text it was handed before decoding it")
     rep.ob(rule, "scanned", True, "btclib:1", f"{n} functions of {modules}: a String argument reaches the decoder with nothing but its ends trimmed")
     rep.floor(rule, floor)
+
+
+def rule_length_dispatch(ctx: Ctx, rep: Report, rule: str, module_prefixes: tuple[str, ...], floor: int) -> None:
+    """`x = bytes_from_octets(arg, sizes)` admits the sizes it lists, and a branch
+    taken on `len(x) == E` afterwards names one of them: E is, as an expression,
+    one of the admitted sizes. A constant that equals one of them on secp256k1
+    only (32 for `ec.p_size`) sends every other curve's x-only key down the
+    branch for another encoding."""
+    n = 0
+    for q, fi in sorted(ctx.prog.functions.items()):
+        if not any(q.startswith(p_) for p_ in module_prefixes):
+            continue
+        for a in own_nodes(fi.node):
+            if not (isinstance(a, ast.Assign) and isinstance(a.targets[0], ast.Name) and isinstance(a.value, ast.Call) and call_name(a.value) == "bytes_from_octets" and len(a.value.args) == 2):
+                continue
+            x = a.targets[0].id
+            sz = a.value.args[1]
+            if isinstance(sz, ast.Name):
+                d = [s_ for s_ in own_nodes(fi.node) if isinstance(s_, ast.Assign) and isinstance(s_.targets[0], ast.Name) and s_.targets[0].id == sz.id]
+                if len(d) != 1:
+                    continue
+                sz = d[0].value
+            if not isinstance(sz, (ast.Tuple, ast.List, ast.Set)):
+                continue
+            admitted = {str(norm(e)).replace(" ", "") for e in sz.elts}
+            symbolic = any(not isinstance(e, ast.Constant) for e in sz.elts)
+            if not symbolic:
+                continue
+            for c in own_nodes(fi.node):
+                if isinstance(c, ast.Compare) and len(c.ops) == 1 and isinstance(c.ops[0], (ast.Eq, ast.NotEq)) and c.lineno >= a.lineno:
+                    l, r = c.left, c.comparators[0]
+                    for lenside, other in ((l, r), (r, l)):
+                        if isinstance(lenside, ast.Call) and call_name(lenside) == "len" and lenside.args and isinstance(lenside.args[0], ast.Name) and lenside.args[0].id == x:
+                            n += 1
+                            e = str(norm(other)).replace(" ", "")
+                            ok = e in admitted
+                            rep.ob(rule, f"{q}:len({x})=={e}", ok, fi.where(c), f"`{norm(c)}` names one of the admitted sizes {sorted(admitted)}" if ok else
+                                   f"`{norm(c)}`: `{norm(other)}` is not one of the sizes {sorted(admitted)} the value was admitted at -- equal to one of them on some curves only")
+    rep.ob(rule, "scanned", True, "btclib:1", f"{n} length dispatches after a multi-size admission in {module_prefixes}")
+    rep.floor(rule, floor)
